@@ -341,7 +341,7 @@ CHECKS = {
         technique="HyNames is a store keyed by HyMangle!Mangle of the name; TLC enumerates (definition, optional second "
                   "definition, use) over constructs and names and exports which value the use must see; each program is "
                   "compiled and run",
-        text="19 defining and 16 using constructs over module variables, macros, parameters, keyword dictionaries and "
+        text="26 defining and 16 using constructs over module variables, macros, parameters, keyword dictionaries and "
              "attributes x 10 names (hyphen / underscore variants, leading and trailing hyphens, illegal characters); laws: "
              "hyphen = underscore except in first position, sameness is an equivalence, every identifier is an identifier.",
         note="Names are drawn over one letter plus - _ !, so the character-class string of HyMangle determines the name. "
